@@ -400,7 +400,12 @@ func (r *Recomposer) recomp(v any, rv reflect.Value) {
 		switch {
 		case et.Kind() == reflect.Interface:
 			for k, m := range vm {
-				rv.SetMapIndex(reflect.ValueOf(k), reflect.ValueOf(r.recompAny(m)))
+				if x := r.recompAny(m); x != nil {
+					rv.SetMapIndex(reflect.ValueOf(k), reflect.ValueOf(x))
+				} else {
+					// keep the member: a nil interface, not the deletion a zero Value means
+					rv.SetMapIndex(reflect.ValueOf(k), reflect.Zero(et))
+				}
 			}
 		case et.Kind() == reflect.Ptr:
 			et = et.Elem()
@@ -501,8 +506,9 @@ func (r *Recomposer) recomp(v any, rv reflect.Value) {
 			}
 		}
 	case reflect.Interface:
-		v = r.recompAny(v)
-		rv.Set(reflect.ValueOf(v))
+		if v = r.recompAny(v); v != nil { // nil stays the nil interface
+			rv.Set(reflect.ValueOf(v))
+		}
 
 	case reflect.Bool:
 		rv.Set(reflect.ValueOf(v))
@@ -565,8 +571,9 @@ func (r *Recomposer) setValue(v any, rv reflect.Value, sf *reflect.StructField) 
 	case reflect.String:
 		rv.Set(reflect.ValueOf(v).Convert(rv.Type()))
 	case reflect.Interface:
-		v = r.recompAny(v)
-		rv.Set(reflect.ValueOf(v))
+		if v = r.recompAny(v); v != nil { // nil stays the nil interface
+			rv.Set(reflect.ValueOf(v))
+		}
 	case reflect.Ptr:
 		if v == nil {
 			return // nil stays a nil pointer (an element of an array of pointers)
